@@ -410,6 +410,36 @@ func TestSub_enum(t *testing.T) {
 	})
 }
 
+var subPairs = vk.Register(&vk.Sub[Case]{Name: "pairs", Check: check, NonTrivial: func(c Case) bool { return true }})
+
+// TestSub_pairs: the order is the order of bytes, for every two of them: every pair of distinct byte values a < b and
+// every string of length 2..4 (quick) / 2..6 (thorough) over {a, b} in which both occur. A comparison that treats two
+// different bytes alike, or orders any two otherwise than by value (letter case, U and T, gap and stop symbols, digits,
+// bytes above 0x7f read as signed or as parts of runes), answers one of these wrongly.
+func TestSub_pairs(t *testing.T) {
+	maxLen := vk.Pick(4, 6)
+	vk.RunEnum(t, subPairs, fmt.Sprintf("every pair of distinct byte values x every string of length 2..%d over the pair that holds both", maxLen), true, func(yield func(Case) bool) {
+		for a := 0; a < 256; a++ {
+			for b := a + 1; b < 256; b++ {
+				for n := 2; n <= maxLen; n++ {
+					for m := 1; m < (1<<n)-1; m++ { // m = 0 and all-ones hold one letter only
+						u := make([]byte, n)
+						for i := range u {
+							u[i] = byte(a)
+							if m>>i&1 == 1 {
+								u[i] = byte(b)
+							}
+						}
+						if !yield(Case{Kind: "literal", Unit: u}) {
+							return
+						}
+					}
+				}
+			}
+		}
+	})
+}
+
 func TestReplay(t *testing.T) { vk.Replay(t) }
 
 // native coverage-guided fuzzing over the same generator and oracle (thorough tier)
